@@ -862,6 +862,8 @@ static int _fetch_and_process_packet(OggVorbis_File *vf,
           vf->current_serialno=vf->os.serialno;
           vf->current_link++;
           link=0;
+          /* _fetch_headers already submitted the page it stopped on */
+          continue;
         }
       }
     }
